@@ -246,4 +246,65 @@ theorem queries_silent {s : St} (h : Inv s) {v w : Nat} (hv : v < s.n) (hw : w <
     obtain ⟨s1, h1, _, _, _, _, _, _, rfl, _⟩ := e; exact one h1
   · intro seps skip s' r e; exact silent_split h hv e
 
+/-! ### helpers for the own-pointer forms of `attach` / `printf` -/
+
+theorem detach_cases {s s2 : St} {v c m : Nat} {d : Desc} (hd : desc s v = some d) (e : detach s v c m = some s2) :
+    (d.ref = 1 ∧ m ≤ d.cap ∧ ∃ bytes, writeOwn s v bytes c = some s2) ∨
+    (¬ (d.ref = 1 ∧ m ≤ d.cap) ∧ ∃ bytes cap, s2 = allocSet s v bytes c cap) := by
+  simp only [detach, hd, Option.bind_eq_bind, Option.bind_some] at e
+  by_cases fast : d.ref = 1 ∧ m ≤ d.cap
+  · simp only [fast, and_self, if_true, Option.bind_eq_some_iff] at e
+    obtain ⟨m0, _, m1, _, e⟩ := e
+    exact Or.inl ⟨fast.1, fast.2, m1, e⟩
+  · simp only [fast, if_false, Option.bind_eq_some_iff, Option.pure_def, Option.some.injEq] at e
+    obtain ⟨src, _, m1, _, m2, _, e⟩ := e
+    exact Or.inr ⟨fast, m2, _, e.symm⟩
+
+/-- memory that is not the released block of `v` survives `allocSet` -/
+theorem memOf_allocSet {s : St} (h : Inv s) {v : Nat} (bytes : List Byte) (len cap : Nat) {p : Base}
+    (hp : ∀ b, p = .blk b → b < s.next ∧ ∀ blk, s.vars v = .blk b → s.heap b = some blk → blk.ref ≠ 1) :
+    memOf (allocSet s v bytes len cap) p = memOf s p := by
+  cases p with
+  | nul => rfl
+  | reg r => simp only [memOf, (allocSet_fields s v bytes len cap).2]
+  | blk b =>
+    obtain ⟨hb, hr⟩ := hp b rfl
+    have F := release_fields s v
+    have hne : b ≠ (setEmpty s v).next := by
+      simp only [setEmpty, setVar, F.2.1]; omega
+    simp only [memOf, allocSet, upd_other _ _ _ _ hne]
+    simp only [setEmpty, setVar]
+    unfold release
+    cases hloc : s.vars v with
+    | empty => rfl
+    | foreign r off len => rfl
+    | blk bv =>
+      simp only
+      cases hbv : s.heap bv with
+      | none => rfl
+      | some blk =>
+        simp only
+        by_cases eb : b = bv
+        · subst eb
+          have := hr blk hloc hbv
+          simp only [this, if_false, upd_same, hbv, Option.map_some]
+        · by_cases r1 : blk.ref = 1 <;> simp only [r1, if_true, if_false, upd_other _ _ _ _ eb]
+
+/-- the variable owns a heap block that no other String shares -/
+def OwnsExcl (s : St) (v : Nat) : Prop := ∃ b blk, s.vars v = .blk b ∧ s.heap b = some blk ∧ blk.ref = 1
+
+theorem cview_terminated {s : St} {v : Nat} (ht : termByte s v = some (some 0)) : cview s v = some s := by
+  unfold termByte at ht
+  unfold cview
+  cases hd : desc s v with
+  | none => simp [hd] at ht
+  | some d =>
+    simp only [hd, Option.bind_eq_bind, Option.bind_some] at ht ⊢
+    cases hm : memOf s d.base with
+    | none => simp [hm] at ht
+    | some m =>
+      simp only [hm, Option.bind_some] at ht
+      simp only [rdVal, hm, Option.bind_eq_bind, Option.bind_some, ht]
+      rfl
+
 end Nstd.Str
